@@ -126,6 +126,7 @@ theorem text_SessionData_SetCodeVerifier_ok : Oidc.Shapes.Text_SessionData_SetCo
 theorem text_deriveCodeChallenge_ok : Oidc.Shapes.Text_deriveCodeChallenge := by unfold Oidc.Shapes.Text_deriveCodeChallenge; rfl
 theorem text_generateCodeVerifier_ok : Oidc.Shapes.Text_generateCodeVerifier := by unfold Oidc.Shapes.Text_generateCodeVerifier; rfl
 theorem text_generateNonce_ok : Oidc.Shapes.Text_generateNonce := by unfold Oidc.Shapes.Text_generateNonce; rfl
+theorem text_generateSecureRandomString_ok : Oidc.Shapes.Text_generateSecureRandomString := by unfold Oidc.Shapes.Text_generateSecureRandomString; rfl
 theorem text_TraefikOidc_ExchangeCodeForToken_ok : Oidc.Shapes.Text_TraefikOidc_ExchangeCodeForToken := by unfold Oidc.Shapes.Text_TraefikOidc_ExchangeCodeForToken; rfl
 theorem text_TraefikOidc_exchangeCodeForToken_ok : Oidc.Shapes.Text_TraefikOidc_exchangeCodeForToken := by unfold Oidc.Shapes.Text_TraefikOidc_exchangeCodeForToken; rfl
 theorem text_TraefikOidc_exchangeTokens_ok : Oidc.Shapes.Text_TraefikOidc_exchangeTokens := by unfold Oidc.Shapes.Text_TraefikOidc_exchangeTokens; rfl
